@@ -35,8 +35,11 @@ def body(run):
         lambda: run.tlc("ClientConn", "ClientConnMC", "C27_gen_bad.cfg", mode="gen", count=False, timeout=3000,
                         label="as-is model: one behaviour per distinct stuck / lost-resume end state"),
         lambda: run.tlc("ClientConn", "ClientConnMC", "C27_gen_sim.cfg", mode="gen", count=False, timeout=3000,
-                        simulate=run.pick(60, 400), depth=90, label="as-is model: seeded sample of interleavings"),
+                        simulate=run.pick(150, 800), depth=90, label="as-is model: seeded sample of interleavings"),
         lambda: exe.__setitem__(0, run.go_build("clientconn")),
+        # thorough: the model of the proposed repair (non-blocking sends only) has no stuck call either
+        (lambda: None) if q else (lambda: run.tlc("ClientConn", "ClientConnMC", "C27_fix_nonblocking.cfg", timeout=3000, workers=6,
+                                                   label="repair model: non-blocking signal sends, two channels kept -> no stuck call")),
     )
     bad, sim = res[3].rows, res[4].rows
     if not bad:
@@ -44,12 +47,13 @@ def body(run):
     stuck = [b for b in bad if b["stuck"]]
     lost = [b for b in bad if b["lostresume"] and not b["stuck"]]
     shape = lambda b: (json.dumps(cl.scripts_of(b), sort_keys=True), b["lpc"], b["stuck"], b["lostresume"])
-    sel_stuck = cl.pick(stuck, run.pick(3, 40), run.seed, key=lambda b: b["lpc"])
-    sel_lost = cl.pick(lost, run.pick(3, 12), run.seed, key=lambda b: len(b["steps"]) // 6)
+    sel_stuck = cl.pick(stuck, run.pick(2, 40), run.seed, key=lambda b: b["lpc"])
+    sel_lost = cl.pick(sorted(lost, key=lambda b: len(b["steps"])), run.pick(2, 12), run.seed, key=lambda b: len(b["steps"]) // 6)
     normal = [b for b in sim if not b["stuck"] and not b["lostresume"]]
-    sel_norm = cl.pick(normal, run.pick(10, 80), run.seed, key=shape)
+    sel_norm, feats = cl.pick_features(normal, run.pick(8, 80), run.seed)
+    run.cov["situations_covered"] = feats
     cases, scripts = [], {}
-    for kind, sel, tries in (("stuck", sel_stuck, 2), ("lost", sel_lost, 8), ("norm", sel_norm, 3)):
+    for kind, sel, tries in (("stuck", sel_stuck, 2), ("lost", sel_lost, 6), ("norm", sel_norm, 3)):
         for i, b in enumerate(sel):
             c = cl.strip_init(b)
             c["id"] = "%s%d" % (kind, i)
@@ -58,7 +62,7 @@ def body(run):
             cases.append(c)
     run.log("TLC: %d bad end states (%d stuck, %d lost-resume), %d sampled; replaying %d behaviours" % (
         len(bad), len(stuck), len(lost), len(sim), len(cases)))
-    results = run.go_run(exe[0], ["-mode", "replay", "-par", str(run.pick(6, 10))], cases=cases, timeout=run.pick(900, 3000))
+    results = run.go_run(exe[0], ["-mode", "replay", "-par", str(run.pick(12, 12))], cases=cases, timeout=run.pick(900, 3000))
     if len(results) != len(cases):
         raise vf.Inconclusive("harness returned %d results for %d cases" % (len(results), len(cases)))
     # trace validation of every recorded replay (also of the ones whose select order drifted)
@@ -100,8 +104,9 @@ def body(run):
     run.cov["behaviours_bad_end_states"] = len(bad)
     run.cov["behaviours_sampled"] = len(sim)
     run.assumptions += [
-        "an API call that has not returned 2 x publish time-out (2 s) + 6 s after the schedule counts as blocked for good; the goroutine dump is part of the report",
-        "publish progress: with a registered subscription and a value changing every 100 ms a notification must arrive within publish time-out + 8 s",
+        "an API call counts as blocked for good when it has not returned 2 x publish time-out (2 s) + 6 s after the schedule, or earlier when two goroutine dumps 700 ms apart show the call and the publish loop both blocked on a lock / channel send; the dump is part of the report",
+        "during the gated replay a goroutine that is seen blocked on a lock / channel send in three dumps 600 ms apart at a step the as-is specification says is enabled is a violation",
+        "publish progress: with a registered subscription and a value changing every 100 ms a notification must arrive within publish time-out + 8 s; decided earlier when the loop sits in its paused select with empty signal channels and an idle monitor",
         "the publish loop has taken the initial pause signal of NewClient before the first application call returns",
         "select order among ready channels is chosen by the Go runtime: schedules that need a particular order are retried (up to 8 times), undriven ones are not counted",
         "peer is the gopcua server (no BadNoSubscription, no per-acknowledgement results, publish requests without subscription are held until they time out)",
